@@ -4,6 +4,7 @@ import (
 	"fmt"
 	"strings"
 	"testing"
+	"time"
 	"unicode/utf8"
 
 	"pgregory.net/rapid"
@@ -249,6 +250,35 @@ func TestC09(t *testing.T) {
 	Main(t, "C09", func(c *Ctx) {
 		c.OnReplay("lex", func(s *Sub, rp *Replay) { c.c09One(s, "replay", []rune(rp.Source), false) })
 		c.ReplayTier()
+
+		// the text the lexer sees is the text the file holds: characters of every encoded length at every offset
+		// around the sizes a reader might use for its buffers (4 KiB, 32 KiB, 64 KiB), through the executable
+		c.Sub("files-through-the-executable", func(s *Sub) {
+			var k int64
+			for _, size := range []int{4096, 8192, 32768, 65536} {
+				for _, ch := range []string{"\U0001f600", "\u0995", "\u00e9", "\U00020000", "a"} {
+					for off := -5; off <= 2; off++ {
+						k++
+						if !c.Mine(k) {
+							continue
+						}
+						// a comment pads the file so that the character's first byte lands at size+off
+						head := bn.KwPrint + " \"start\";\n// "
+						tail := "\n" + bn.KwPrint + " \""
+						pad := size + off - len(head) - len(tail)
+						src := head + strings.Repeat("x", pad) + tail + ch + ch + "|" + ch + "\";\n" + bn.KwPrint + " \"end\";\n"
+						cr := c.CLIScript(src, "", 30*time.Second)
+						c.Ev.EnumCase("files-through-the-executable", true, func() string { return fmt.Sprintf("%+q at byte %d", ch, size+off) }, "file-offsets")
+						want := "start\n" + ch + ch + "|" + ch + "\nend\n"
+						if cr.TimedOut || cr.Status != 0 || cr.Stdout != want || cr.Stderr != "" {
+							s.Violation(Replay{Check: "file", Sig: "file-offset", Source: fmt.Sprintf("%+q at byte %d", ch, size+off), Note: fmt.Sprintf("a script whose string literal starts at byte %d must print %+q", size+off, want),
+								Observed: fmt.Sprintf("status=%d stdout=%+q stderr=%q", cr.Status, clip(cr.Stdout, 120), clip(cr.Stderr, 200))})
+						}
+					}
+				}
+			}
+			c.Ev.MarkExhaustive("characters of 1, 2, 3 and 4 bytes at 8 offsets around 4 KiB, 8 KiB, 32 KiB and 64 KiB of a script file")
+		})
 
 		maxChars, maxFrags := 4, 3
 		if c.Thorough {
